@@ -8,6 +8,9 @@ Inductive c01case :=
        (upd : list dnode)     (* source rows a reference deletion re-dates and re-signs (DeletionQuery.updated_nodes) *)
 | CRoomMut (defs : list (uid * list event)) (me : key) (rid : uid) (date : Z) (news : list event)
        (* a mutation of an existing room's definition: the entries `news`, all dated `date` *)
+| CFailedWrite (inner : c01case)
+       (* `inner` submitted through the API while the storage refuses the write (injected failure
+          of the batch): it must be answered with an error and leave tables AND rooms unchanged *)
 | CE2E (inner : c01case).    (* the same operation submitted as text through the public API of a real instance:
                                 observation = [refused?; database changed?] *)
 
@@ -71,6 +74,7 @@ Fixpoint run_C01 (c : c01case) : list Z :=
       | None => [verdict_code VUnknownRoom]
       | Some p => [verdict_code (validate_room_update me (build (fst p) (snd p)) date news)]
       end
+  | CFailedWrite _ => [1; 0]
   | CE2E inner =>
       match run_C01 inner with
       | [v] => if Z.eqb v 0 then [0; 1] else [1; 0]      (* accepted: applied; refused: nothing changes *)
@@ -150,6 +154,7 @@ Fixpoint spec_C01 (c : c01case) (obs : list Z) : bool :=
       | [v] => if Z.eqb v 0 then known_room defs rid && admin_at (evs_of defs rid) me date else true
       | _ => false
       end
+  | CFailedWrite _ => zlist_eqb obs [1; 0]
   | CE2E inner =>
       match obs with
       | [refused; changed] =>
